@@ -21,8 +21,11 @@ trusted_base = [
 assumptions = ["regex matching is an oracle; HashMap iteration order is abstracted (theorem: results do not depend on it)"]
 
 REGEXES = ["foo", "^foo$", "^a (\\d+) b$", "(?P<n>x)?y", "((a)|(b))+", "é(.)", "^.*$", "(?i)FOO", "^(?P<who>\\w+) eats (?P<n>\\d+)( big)? (\\w+)$",
-           "a", "^a", "(a)(?:b)?(c)?", "^$", "b|(c)", "^(é+)(?P<rest>.*)$"]
-TEXTS = ["foo", "a 12 b", "y", "xy", "ab", "éé x", "FOO", "bob eats 3 apples", "bob eats 3 big apples", "", "a", "abc", "ac", "c", "zzz"]
+           "a", "^a", "(a)(?:b)?(c)?", "^$", "b|(c)", "^(é+)(?P<rest>.*)$",
+           # unanchored, matching in the middle of the text, with (multi-byte) groups
+           "eats (\\d+) (\\w+)", "(\\d+) (big )?apples?", "x (é+) (?P<t>\\w)", "(o+)b", "ü(n)(ï)?"]
+TEXTS = ["foo", "a 12 b", "y", "xy", "ab", "éé x", "FOO", "bob eats 3 apples", "bob eats 3 big apples", "", "a", "abc", "ac", "c", "zzz",
+         "ünï x éé z and more text", "foo bob eats 12 big apples today", "ünï foob"]
 
 
 def gen_loc(rng):
